@@ -6,10 +6,24 @@ sys.path.insert(0, os.path.dirname(os.path.abspath(__file__)))
 import witness  # noqa: E402
 
 W = ["u8", "i8", "u16", "i16", "u32", "i32", "u64", "i64", "usize", "isize", "bool", "char"]
-C12_FAST = [f"rt_{w}" for w in W] + [f"pair_{w}" for w in W if w not in ()] + ["rt_f32", "rt_f64"]
-C12_WIDE = ["rt_u128", "rt_i128", "pair_u128", "pair_i128"]
+C12_FAST = [f"rt_{w}" for w in W] + [f"pair_{w}" for w in W] + ["rt_f32", "rt_f64", "rt_u128", "rt_i128"]
+C12_WIDE = ["pair_u128", "pair_i128"]
 
 PROPS = {
+    "C11": {
+        "verus": ["c11_rocksdb", "c11_fjall"],
+        "kani": [],
+        "witness": witness.c11,
+        "assumptions": [
+            "RocksDB / Fjall themselves are trusted: keys ordered by the bytewise comparator (lex_le/lex_lt of the spec), atomic batch write, iterate_upper_bound / prefix() semantics, visibility of committed data only, persistence across reopen",
+            "rule R10: `PostcardEncoder::new(buf).encode(key,plugin).expect(..)` appends exactly key.bytes() (C12's Encode contract + Vec<u8>: Write appends and never fails)",
+            "rules R11/R12: u64::{from,to}_le_bytes and buf[a..b].copy_from_slice(src) replaced by opaque wrappers carrying the std contract",
+            "interface stand-ins (declarations only): Wire, Encode, Plugin, Impl{plugin}, WideColumn, WideColumnValue; discriminant_encoding()/discriminant() are constants of their types",
+            "transform_key precondition: RocksDB only passes keys of the column family (or bounds derived from them), whose 8-byte length field is < 2^64-8",
+            "key images are prefix-free and injective (C12) -- used as hypothesis prefix_free_ty of the pair-injectivity lemmas",
+            "not under contract: get_or_create_cf*, cf_name_from_id, RocksDBWriteBatch/SerializationBuffer plumbing, commit, ScanMembersIterator::next (its split arithmetic is lemma_member_split), reopen",
+        ],
+    },
     "C12": {
         "verus": ["c12_generic"],
         "kani": [
